@@ -227,6 +227,9 @@ def uniform_dequantize(
       tensor_data, quantization_params
   )
   _is_valid_quantization_params(tensor_data, quantization_params)
+  if np.issubdtype(tensor_data.dtype, np.integer):
+    # Avoid wrap-around when data and zero point share a narrow integer type.
+    tensor_data = tensor_data.astype(np.int64)
   return np.multiply(
       tensor_data - quantization_params.zero_point, quantization_params.scale
   )
